@@ -2,3 +2,7 @@ import Pfl.Core.Closure
 import Pfl.Model.FA
 import Pfl.Spec.FA
 import Pfl.Oracle.LangEquiv
+import Pfl.Proofs.FABase
+import Pfl.Props.C01
+import Pfl.Props.C03
+import Pfl.Props.C04
